@@ -1,5 +1,5 @@
 CONSTANTS NK = 5  NM = 2  MaxPasses = 1  MaxSteps = 1  MaxInserts = 1  EditFrom = "signed"  MutSet = "all"
           Shapes <- NoShapes  Coins <- AllCoins  HashTypes <- StdHashTypes  Cases <- CasesDev
 SPECIFICATION MSpec
-INVARIANTS CandidatesCover AttributionIsSigned CommitmentInvariance NoInvention RetagKills TransplantKills ValidIffAttributed
+INVARIANTS CandidatesCover AttributionIsSigned CommitmentInvariance NoInvention RetagKills TransplantKills OpenOnlyInCorner ValidIffAttributed
 CHECK_DEADLOCK FALSE
